@@ -102,7 +102,10 @@ def build(modname):
             if kind in L.get('hooks', {}):
                 d[kind] = _hook(kind, idx, L['hooks'][kind])
         obj = None
-        if L.get('kind') == 'class' and all(isinstance(b, type) for b in bases):
+        inherits = any(hasattr(b, kind) for b in bases
+                       for kind in ('setUp', 'tearDown', 'testSetUp', 'testTearDown') if kind not in d)
+        # a class layer would inherit the hooks it does not define itself; such layers become instance layers
+        if L.get('kind') == 'class' and all(isinstance(b, type) for b in bases) and not inherits:
             cd = {k: classmethod(v) for k, v in d.items()}
             cd['__module__'] = modname
             try:
